@@ -142,15 +142,18 @@ def gen_cases(ctx):
                 srcs = [[[d, dist] for dist, d in c] for c in combo]
                 yield dict(stream="solver", srcs=srcs, R=2, ndest=3, family="exh3",
                            strategies=["recursive", "nonrecursive"] if ns == 3 else STRATS)
-    n = ctx.n(1500, 60000)
+    n = ctx.n(1500, 30000)
     for i in range(n):
         rng = ctx.rng("solver", i)
         g = gen_graph(rng, big=(i % 10 == 9))
         g["max_size_delta"] = rng.choice([None, None, None, -1, 0, 1])
         g["shuffle"] = rng.randint(0, 10 ** 6)
+        # uniform power-of-two rescaling of all distances (exact): the optimum does not change
+        # (Props/C03 scale_invariant); tiny magnitudes expose absolute tolerances
+        g["scale_pow"] = rng.choice([0, 0, 0, 0, -30, -20, -10, 10, 30])
         yield g
     from . import linkcommon
-    m = ctx.n(300, 5000)
+    m = ctx.n(300, 2500)
     for i in range(m):
         rng = ctx.rng("step", i)
         mv = linkcommon.gen_movie(rng, thorough=ctx.thorough, plant_history=True)
@@ -172,7 +175,7 @@ def run_solver_impl(inp, strategy, max_size):
     dps = [Point(1, np.array([float(i), 0.0])) for i in range(nd)]
     sps = [Point(0, np.array([float(i), 1.0])) for i in range(len(srcs))]
     for sp, s in zip(sps, srcs):
-        sp.forward_cands = [(dps[d], dist / 8.0) for d, dist in s]
+        sp.forward_cands = [(dps[d], dist / 8.0 * 2.0 ** inp.get("scale_pow", 0)) for d, dist in s]
     order = list(range(len(sps)))
     random.Random(inp.get("shuffle", 0)).shuffle(order)
     # sets iterate in hash order; insertion order varies with the shuffle
@@ -181,7 +184,8 @@ def run_solver_impl(inp, strategy, max_size):
     idx_s = {id(p): i for i, p in enumerate(sps)}
     idx_d = {id(p): i for i, p in enumerate(dps)}
     try:
-        spl, dpl = _linker(strategy)(source_set, dest_set, R8 / 8.0, max_size=max_size)
+        spl, dpl = _linker(strategy)(source_set, dest_set, R8 / 8.0 * 2.0 ** inp.get("scale_pow", 0),
+                                     max_size=max_size)
     except SubnetOversizeException:
         return ("oversize",)
     chosen = {}
